@@ -500,12 +500,47 @@ def save_sequences(ctx):
                     break
 
 
+def relative_name_case(ctx):
+    """directed: a model compiled from a workbook given by a relative file name; the name is part of what survives"""
+    from pycel import ExcelCompiler
+    spec = {'sheets': [['Sheet1', {'A1': 1, 'B1': '=A1*2'}]], 'names': {}, 'arrays': [], 'calc': None}
+    here = os.getcwd()
+    work = os.path.join(ctx.tmpdir, 'relative')
+    os.makedirs(work, exist_ok=True)
+    try:
+        os.chdir(work)
+        wb.write_xlsx(spec, os.path.join(work, 'rel-book.xlsx'), {'Sheet1!B1': 2})
+        for fmt in ('yml', 'json', 'pkl'):
+            case = {'kind': 'relative-name', 'fmt': fmt}
+            comp = ExcelCompiler(filename='rel-book.xlsx')
+            comp.evaluate('Sheet1!B1')
+            ctx.count('directed:relative_name')
+            ctx.case(('relative-name', fmt))
+            try:
+                comp.to_file(file_types=(fmt,))
+                loaded = ExcelCompiler.from_file('rel-book.xlsx.' + fmt)
+                loaded.to_file('resaved', file_types=('yml',))
+                again = ExcelCompiler.from_file('resaved.yml')
+            except Exception as exc:
+                if not wb.raised_outside_harness(exc):
+                    raise
+                ctx.violation(f'relative-workbook-name/raises/{fmt}', wb.describe(exc), case)
+                continue
+            names = {'original': comp.filename, 'loaded': loaded.filename, 'loaded, saved and loaded again': again.filename}
+            if len(set(names.values())) != 1:
+                ctx.violation(f'workbook-file-name-changes/{fmt}',
+                              f'compiled from the relative name rel-book.xlsx: {names}', case)
+    finally:
+        os.chdir(here)
+
+
 def run(ctx):
     rng = ctx.rng
     i = 0
     if ctx.shard == 0:
         directed(ctx)
         save_sequences(ctx)
+        relative_name_case(ctx)
     # save / load of the workbooks shipped with the repository
     realbooks.run_cases(ctx, realbooks.c03_case, realbooks.acyclic_books(), 6 if ctx.quick else 60, fraction=0.25)
     while not ctx.out_of_time():
@@ -531,6 +566,9 @@ def run(ctx):
 
 
 def replay(ctx, case):
+    if case.get('kind') == 'relative-name':
+        relative_name_case(ctx)
+        return
     if case.get('kind') == 'save-sequence':
         save_sequences(ctx)
         return
